@@ -66,14 +66,20 @@ type jobSpec struct {
 	Out      string `json:"out"`
 	Progress string `json:"progress"`
 	Input    string `json:"input,omitempty"` // replay: parse these bytes instead of the generated ones
+	Key      string `json:"key,omitempty"`   // stream "minimise": shrink Input while this key is reported
 	PosFile  string `json:"pos_file"`        // scratch file used to observe positions against a file on disk
 }
 
 type violRec struct {
-	Key     string `json:"key"`
-	What    string `json:"what"`
-	Witness any    `json:"witness"`
-	Case    int    `json:"case"`
+	Key     string   `json:"key"`
+	What    string   `json:"what"`
+	Witness any      `json:"witness"`
+	Case    int      `json:"case"`
+	Raw     string   `json:"raw,omitempty"` // base64 of the violating input as generated (minimised later, once per key)
+	RawLen  int      `json:"raw_len,omitempty"`
+	Desc    string   `json:"desc,omitempty"`
+	Ops     []string `json:"ops,omitempty"`
+	stream  string
 }
 
 type batchResult struct {
@@ -344,12 +350,12 @@ func streamSize(stream, tier string, ncorpus int) int {
 		return adjacentCount(4)
 	case "grammar":
 		if quick {
-			return 40000
+			return 30000
 		}
 		return 2000000
 	case "mutfuzz":
 		if quick {
-			return 300000
+			return 200000
 		}
 		return 20000000
 	case "depth":
@@ -428,6 +434,16 @@ func TestC19Child(t *testing.T) {
 
 func runJob(job jobSpec) {
 	installCapture()
+	if job.Stream == "minimise" {
+		debug.SetMaxStack(256 << 20)
+		p := asp.NewParser(iplib.NewState())
+		data, _ := os.ReadFile(job.Input)
+		min := minimise(p, data, "pkg/BUILD", job.Key)
+		o := evaluate(p, min, "pkg/BUILD")
+		b, _ := json.Marshal(map[string]any{"min": base64.StdEncoding.EncodeToString(min), "what": o.What, "key": o.Key})
+		os.WriteFile(job.Out, b, 0o644)
+		return
+	}
 	r := lib.Start("C19") // only for the per-case PRNG; never finished in the child
 	var corpus []seedFile
 	if b, err := os.ReadFile(job.Corpus); err == nil {
@@ -507,17 +523,14 @@ func runJob(job jobSpec) {
 			res.Obs["violating_inputs/"+job.Stream]++
 			if !seenKeys[o.Key] {
 				seenKeys[o.Key] = true
-				min := minimise(p, c.Data, fakeName, o.Key)
-				mo := evaluate(p, min, fakeName)
-				w := map[string]any{"input": clip(string(min), 2000), "input_b64": b64(min, 64<<10), "original_len": len(c.Data), "made_by": c.Desc, "ops": c.Ops}
+				v := violRec{Key: o.Key, What: o.What, Case: i, Desc: c.Desc, Ops: c.Ops}
 				if job.Stream == "depth" {
-					w = map[string]any{"depth_case": depthTable(job.Tier)[i]}
+					v.Witness = map[string]any{"depth_case": depthTable(job.Tier)[i]}
+				} else {
+					v.Raw, v.RawLen = b64(c.Data, 64<<10), len(c.Data)
+					v.Witness = map[string]any{"input": clip(string(c.Data), 2000), "input_b64": v.Raw, "made_by": c.Desc, "ops": c.Ops}
 				}
-				what := mo.What
-				if what == "" {
-					what = o.What
-				}
-				res.Viols = append(res.Viols, violRec{Key: o.Key, What: fmt.Sprintf("%s; minimal input %q", what, clip(string(min), 200)), Witness: w, Case: i})
+				res.Viols = append(res.Viols, v)
 			}
 		case o.OK:
 			res.Obs["accepted"]++
@@ -605,6 +618,7 @@ type parent struct {
 	mu      sync.Mutex
 	viols   map[string][]violRec // per stream
 	samples map[string][]any
+	durs    []string
 	deaths  atomic.Int64 // confirmed process deaths / hangs outside the ladder
 }
 
@@ -613,9 +627,58 @@ type parent struct {
 const maxDeaths = 3
 
 func (p *parent) addViol(stream string, v violRec) {
+	v.stream = stream
 	p.mu.Lock()
 	p.viols[stream] = append(p.viols[stream], v)
 	p.mu.Unlock()
+}
+
+// finalise keeps one witness per key (the smallest generated input; for process deaths the lowest case)
+// and minimises it once, in a child of its own.
+func (p *parent) finalise() {
+	p.mu.Lock()
+	best := map[string]violRec{}
+	for _, vs := range p.viols {
+		for _, v := range vs {
+			b, ok := best[v.Key]
+			if !ok || v.RawLen < b.RawLen || (v.RawLen == b.RawLen && (v.stream < b.stream || (v.stream == b.stream && v.Case < b.Case))) {
+				best[v.Key] = v
+			}
+		}
+	}
+	p.viols = map[string][]violRec{}
+	p.mu.Unlock()
+	keys := make([]string, 0, len(best))
+	for k := range best {
+		keys = append(keys, k)
+	}
+	sort.Strings(keys)
+	for _, k := range keys {
+		v := best[k]
+		if raw, err := base64.StdEncoding.DecodeString(v.Raw); err == nil && v.Raw != "" {
+			min, what := raw, v.What
+			id := p.jobSeq.Add(1)
+			base := filepath.Join(p.dir, fmt.Sprintf("min%06d", id))
+			os.WriteFile(base+".in", raw, 0o644)
+			jb, _ := json.Marshal(jobSpec{Stream: "minimise", Input: base + ".in", Key: v.Key, Out: base + ".out"})
+			os.WriteFile(base+".job", jb, 0o644)
+			lib.Child(childTest, []string{"C19_JOB=" + base + ".job", "GOMAXPROCS=2", "GOGC=400"}, 10*time.Minute)
+			var mr struct{ Min, What, Key string }
+			if b, err := os.ReadFile(base + ".out"); err == nil && json.Unmarshal(b, &mr) == nil && mr.Key == v.Key {
+				if m, err := base64.StdEncoding.DecodeString(mr.Min); err == nil {
+					min, what = m, mr.What
+				}
+			}
+			v.What = fmt.Sprintf("%s; minimal input %q", what, clip(string(min), 200))
+			v.Witness = map[string]any{"input": clip(string(min), 2000), "input_b64": b64(min, 64<<10), "found_as": clip(string(raw), 600), "found_len": len(raw), "made_by": v.Desc, "ops": v.Ops}
+			for _, suf := range []string{".in", ".job", ".out"} {
+				os.Remove(base + suf)
+			}
+		}
+		p.mu.Lock()
+		p.viols[v.stream] = append(p.viols[v.stream], v)
+		p.mu.Unlock()
+	}
 }
 
 // flush reports the collected violations of a stream; must be called while r's current stream is that stream.
@@ -658,9 +721,15 @@ func (p *parent) runBatch(stream string, from, to int, input string) {
 	jb, _ := json.Marshal(job)
 	os.WriteFile(base+".job", jb, 0o644)
 	timeout := 30 * time.Minute
-	env := []string{"C19_JOB=" + base + ".job", "GORACE="}
+	env := []string{"C19_JOB=" + base + ".job", "GORACE=", "GOMAXPROCS=2"}
+	if stream != "depth" {
+		env = append(env, "GOGC=400")
+	}
 	cr := lib.Child(childTest, env, timeout)
 	p.r.Obs("child_processes", 1)
+	p.mu.Lock()
+	p.durs = append(p.durs, fmt.Sprintf("%07.1fs %s[%d,%d)", cr.Dur.Seconds(), stream, from, to))
+	p.mu.Unlock()
 	defer func() {
 		for _, suf := range []string{".job", ".out", ".progress", ".BUILD", ".out.input", ".out.hang"} {
 			os.Remove(base + suf)
@@ -886,6 +955,7 @@ func TestC19(t *testing.T) {
 		for _, s := range streams {
 			r.ForEach(s.name, streamSize(s.name, r.Tier, len(corpus)), 1, func(i int, _ *rand.Rand) {
 				p.runBatch(s.name, i, i+1, input)
+				p.finalise()
 				p.flush(s.name)
 			})
 		}
@@ -919,6 +989,9 @@ func TestC19(t *testing.T) {
 	}
 	close(ch)
 	wg.Wait()
+	sort.Sort(sort.Reverse(sort.StringSlice(p.durs)))
+	r.Extra("slowest_children_wall", p.durs[:minInt(6, len(p.durs))])
+	p.finalise()
 	for _, s := range streams {
 		r.ForEach(s.name, 0, 1, func(int, *rand.Rand) {}) // sets the stream recorded in replay files
 		p.flush(s.name)
